@@ -69,6 +69,11 @@ type Case struct {
 	// implementation under test, so that the C05 check does not depend on C06's repair and vice versa)
 	Special string `json:"special,omitempty"` // a fixed scenario outside the case language (see workflow.go)
 
+	// AltsFull asks the oracle for the failure alternatives under one completion schedule per nesting
+	// level, chosen independently (expensive: only asked for when the uniform alternatives do not
+	// explain the implementation's result)
+	AltsFull bool `json:"altsFull,omitempty"`
+
 	CfgInitialChecked *bool `json:"cfgInitialChecked,omitempty"`
 	CfgFwdStale       *bool `json:"cfgFwdStale,omitempty"`
 }
